@@ -95,38 +95,45 @@ Theorem C12_checker_sound_first_build :
 Proof. exact observed_built_function. Qed.
 Print Assumptions C12_checker_sound_first_build.
 
-(* D08 is a theorem about the faithful model: finish_module succeeds exactly on a module with
-   functions.len() = num_local_functions + imports.num_funcs; every parsed module satisfies it; after
-   convert_local_fn_to_import has converted a local function, every later finish_module panics, whatever else is
-   called in between. *)
+(* finish_module asserts functions.len() = num_local_functions + imports.num_funcs and succeeds exactly on a module
+   that satisfies it.  Every parsed module does, with num_local_functions the number of local function items, and every
+   API call of a history -- finish_module, add_import_func, delete_func and (since the repair of D08, which takes one
+   off num_local_functions) convert_local_fn_to_import -- keeps both facts: finish_module never fails, after any
+   history.  (Before the repair every finish_module after a conversion panicked.) *)
 Theorem C12_build_needs_balance :
   forall m fp, (exists r, step m (AddLocal SF fp) = Ok r) <-> behind m 0.
 Proof. exact build_needs_balance. Qed.
 Print Assumptions C12_build_needs_balance.
-Theorem C12_base_balanced : forall c : bcase, behind (b_m (bbase c)) 0.
-Proof. exact base_balanced. Qed.
+Theorem C12_base_balanced : forall c : bcase, wfb (b_m (bbase c)).
+Proof. exact base_wfb. Qed.
 Print Assumptions C12_base_balanced.
-Theorem C12_D08_build_panics_after_conversion :
-  forall s id fpi it s1 r h rets s2 rets2 fp params results locs body name,
-  behind (b_m s) 0 ->
-  nthN (s_items (m_f (b_m s))) id = Some it -> is_local it = true ->
-  bstep s (BLocalToImport id fpi) = Ok (s1, r) ->
-  brun s1 h rets = (s2, rets2, false) ->
-  bstep s2 (BBuild fp params results locs body name) = Panic 2.
-Proof. exact D08_build_panics_after_conversion. Qed.
-Print Assumptions C12_D08_build_panics_after_conversion.
+Theorem C12_balance_kept_by_every_call :
+  (forall s o s' r, wfb (b_m s) -> bstep s o = Ok (s', r) -> wfb (b_m s'))
+  /\ (forall h s rets s' rets' p, wfb (b_m s) -> brun s h rets = (s', rets', p) -> wfb (b_m s')).
+Proof. split; [exact bstep_wfb | exact brun_wfb]. Qed.
+Print Assumptions C12_balance_kept_by_every_call.
+Theorem C12_finish_module_never_fails :
+  forall (c : bcase) h rets s rets' p fp params results locs body name,
+  brun (bbase c) h rets = (s, rets', p) ->
+  exists s' r, bstep s (BBuild fp params results locs body name) = Ok (s', r).
+Proof. intros. apply build_succeeds. eapply brun_wfb; [apply base_wfb | eassumption]. Qed.
+Print Assumptions C12_finish_module_never_fails.
 
 (* The remaining part of the property -- the position of the function in the index space, i.e. that the returned id
    and the name refer to it after imports are added / functions deleted -- rests on recalculate_ids (closed form:
    C06_index_space_closed_form) and is decided per history by CheckBuild.verdict12 on the real output. *)
 
 Definition base_f (fp : N) (name : option N) : fobs := mkFO fp [] [] [] [(10, [Z.of_N fp]); (11, []); (1, [])] name.
-(* D08: convert_local_fn_to_import of another function, then finish_module: the API call panics *)
-Example C12_refuted_D08 :
+(* the former D08 witness (convert_local_fn_to_import of another function, then finish_module, used to panic): the
+   build succeeds, returns id 2, and the property holds *)
+Example C12_former_D08_witness_holds :
   let c := self_b [([], [])] [] [base_f 11 None; base_f 9999 None]
              [BLocalToImport 0 21; BBuild 31 [0] [] [1] [(10, [31%Z]); (11, [])] None] [] in
-  agree c = true /\ bo_api_panic c = true /\ bo_rets c = [None]
-  /\ dom_of (verdict12 c) = true /\ holds_of (verdict12 c) = false /\ known_D08 c = true.
+  agree c = true /\ bo_api_panic c = false /\ bo_rets c = [None; Some 2]
+  /\ dom_of (verdict12 c) = true /\ holds_of (verdict12 c) = true /\ known_of (verdict12 c) = []
+  /\ option_map bo_imports (bo_enc c) = Some [(0, 21)]
+  /\ option_map bo_funcs (bo_enc c)
+     = Some [base_f 9999 None; mkFO 31 [0] [] [(1, 1)] [(10, [31%Z]); (11, []); (1, [])] None].
 Proof. vm_compute. repeat split; reflexivity. Qed.
 (* non-vacuity: two builds (one with a signature already in the type section, repeated local types, a name; one with a
    v128 parameter and an explicit `end` inside the built sequence) interleaved with two import additions and a deletion,
